@@ -128,10 +128,33 @@ impl Crdt for OR {
     fn persist_op(op: &Self::Op) -> Option<(Result<String, String>, Option<Self::Op>)> {
         Some(json_roundtrip(op))
     }
+    fn shared_live_dot(a: &OS, b: &OS) -> Option<bool> {
+        Some(shared_dot(to_tree(a).field("entries"), to_tree(b).field("entries"), |c| c.clone()))
+    }
     fn op_dot(op: &Self::Op) -> Option<String> {
         match op {
             Op::Add { dot: d, .. } => Some(dot(d)),
             _ => None,
         }
     }
+}
+
+/// do two entry tables (member/key -> clock, or -> entry with a `clock` field via `get_clock`) hold the same non-zero
+/// (actor, counter) under DIFFERENT members/keys?
+pub fn shared_dot(ea: &Tree, eb: &Tree, get_clock: impl Fn(&Tree) -> Tree) -> bool {
+    for (m, ca) in ea.map() {
+        for (m2, cb) in eb.map() {
+            if m == m2 {
+                continue;
+            }
+            let ca = get_clock(ca);
+            let cb = get_clock(cb);
+            for (actor, n) in ca.map() {
+                if n.u() != 0 && cb.map().iter().any(|(a2, n2)| a2 == actor && n2 == n) {
+                    return true;
+                }
+            }
+        }
+    }
+    false
 }
